@@ -212,8 +212,10 @@ def lxml_reference(case, nodes, ctx):
     """XPath 1.0 result through lxml for expressions of the safe sub-grammar, else None.
     Deviations rewritten: node() -> * (tag nodes only)."""
     expr = case["expr"]
-    if "|" in expr or "//" in expr or ".." in expr or expr.startswith("/") or "." in expr.replace("()", ""):
+    if "|" in expr or ".." in expr or expr.startswith("/") or "." in expr.replace("()", ""):
         return None
+    # `//` is the abbreviation of /descendant-or-self::node()/ (node() is rewritten below)
+    expr = expr.replace("//", "/descendant-or-self::node()/")
     if type(ctx).__name__ != "TagNode":
         return None
     # deviation 1: an unprefixed name addresses the default namespace declared for the query
@@ -231,8 +233,10 @@ def lxml_reference(case, nodes, ctx):
         if not m:
             return None
         preds = m.group(3)
-        if "!=" in preds or '=""' in preds or "not(" in preds or "boolean(" in preds:
+        if "!=" in preds or '=""' in preds or "boolean(" in preds:
             return None
+        if "not(" in preds and "@" in preds:
+            return None  # recorded finding: not() over an attribute looks at its value
         if m.group(1) in ("parent", "ancestor", "ancestor-or-self") and "(" in m.group(2):
             return None  # recorded finding: the document node passes every node-type test
         test = m.group(2)
@@ -290,11 +294,14 @@ def gen_safe(rng):
         s = (ax + "::" if ax else "") + nt
         for _ in range(rng.choice([0, 1, 1, 2])):
             p = rng.choice([str(rng.randrange(1, 4)), "position()=last()", "@x", '@x="1"', "position()<3", 'contains(@y,"b")',
+                            "not(position()=1)", "not(position()=last())", "not(position()<2) and position()<4",
                             '@x and position()=1', '@x="1" or @y', "@x or @y and position()=1", "@x and @y or position()>1",
                             '@y="b" or @x and @y', "position()=1 and @x or @y"])
             s += "[%s]" % p
         steps.append(s)
-    return "/".join(steps)
+    seps = [rng.choice(["/", "/", "/", "//"]) for _ in steps[1:]]
+    lead = rng.choice(["", "", "", ".//"]) if False else ""
+    return lead + steps[0] + "".join(a + b for a, b in zip(seps, steps[1:]))
 
 
 def known(case, doc_xml, out):
